@@ -11,12 +11,14 @@
      under any order of the alternatives; the reference-point score under any order of the criteria.
    - pipelines, step by step: every rational scaler (and the rational cores of VectorScaler / StandarScaler)
      commutes with a reordering of the alternatives, column by column, up to ==.
-   That a whole pipeline (scalers / inverters / weighters in front of a method) composes these facts - every
-   kernel respects == - is covered by the two-presentation correspondence only. *)
+     A chain of any number of such scalers followed by WSM / RatioMOORA ranks every alternative the same
+     whatever the listing order (the whole pipeline theorem for the linear methods).
+   Pipelines ending in the other methods, or containing inverters / weighters, compose the same facts but are
+   covered by the two-presentation correspondence only. *)
 From Coq Require Import ZArith QArith List Bool Arith Permutation.
 From Coq Require Import Reals.
 From SKC Require Import Base.QBool Base.QList Base.QRank Model.Agg Model.Electre Theory.Agg Theory.RankFacts Theory.Invariance
-  Theory.RealClosing Theory.MultiMoora Theory.RankPerm Theory.RankPerm2 Theory.ElectreInv Theory.CritPerm Theory.ScalerPerm.
+  Theory.RealClosing Theory.MultiMoora Theory.RankPerm Theory.RankPerm2 Theory.ElectreInv Theory.CritPerm Theory.ScalerPerm Theory.PipelinePerm.
 From SKC Require Import Model.Transform.
 Import ListNotations.
 
@@ -240,6 +242,21 @@ Theorem C05_cenit_scaler_follows_alternatives : forall sigma v mx,
   Forall2 Qeq (cenit_col mx (reindex 0 sigma v)) (reindex 0 sigma (cenit_col mx v)).
 Proof. intros sigma v mx P. exact (cenit_col_reindex sigma v P mx). Qed.
 Print Assumptions C05_cenit_scaler_follows_alternatives.
+
+(* a whole pipeline: any chain of matrix scalers that respect == and commute with reordering (the listed rational
+   scalers do), followed by a weighted sum (WSM; RatioMOORA with its signed weights) *)
+Theorem C05_scaler_chain_then_linear_method_follows_alternatives : forall m fs wv sigma rows,
+  Permutation sigma (seq 0 (length rows)) -> Forall (good_step sigma) fs ->
+  rank_values true (wsm_scores wv (scale_all m fs (reindex [] sigma rows))) =
+  reindex 0%nat sigma (rank_values true (wsm_scores wv (scale_all m fs rows))).
+Proof. exact scaled_linear_ranking_follows_alternatives. Qed.
+Print Assumptions C05_scaler_chain_then_linear_method_follows_alternatives.
+
+Theorem C05_rational_scalers_are_admissible_steps : forall sigma,
+  good_step sigma sum_scale /\ good_step sigma maxabs_scale /\ (forall lo hi, good_step sigma (minmax_scale lo hi)) /\
+  good_step sigma push_neg /\ forall e, good_step sigma (add_zero e).
+Proof. exact rational_scalers_are_good_steps. Qed.
+Print Assumptions C05_rational_scalers_are_admissible_steps.
 
 Example C05_example :
   dot [1; 2; 3] [4; 5; 6] == dot [3; 1; 2] [6; 4; 5] /\
